@@ -58,7 +58,7 @@ int & owner_of(pthread_mutex_t * m) {
     if (nown >= 512) { fputs("HARNESS: sched mutex table full\n", stderr); _exit(2); }
     own[nown].m = m; own[nown].owner = -1; return own[nown++].owner;
 }
-uint64_t rng; int strategy, sparam; uint64_t steps, switches, sig, budget = 0; int spurious = 0;
+uint64_t rng; int strategy, sparam; uint64_t steps, switches, sig, budget = 0; int spurious = 0, timeouts = 0;
 uint64_t change_points[8]; int nchange = 0;
 const size_t LOGMAX = 1 << 20;
 uint8_t * slog = nullptr; size_t nlog = 0;
@@ -170,6 +170,9 @@ void schedule() {
     // optional spurious wake-up of one condition waiter
     if (spurious && (int)(rnd() % 1000) < spurious)
         for (int i = 0; i < nT; i++) if (T[i]->st == WAIT_COND && T[i] != me) { T[i]->st = WANT_MUTEX; T[i]->obj = T[i]->obj2; break; }
+    // virtual time: a timed wait may time out at any scheduling point
+    if (timeouts && (int)(rnd() % 1000) < timeouts)
+        for (int i = 0; i < nT; i++) if (T[i]->st == WAIT_COND && T[i]->timed && T[i] != me) { T[i]->st = WANT_MUTEX; T[i]->obj = T[i]->obj2; T[i]->timedout = true; break; }
     Th * cand[MAXT]; int nc = 0; bool allfin = true;
     for (int i = 0; i < nT; i++) { if (T[i]->st != FINISHED) allfin = false; if (enabled(T[i])) cand[nc++] = T[i]; }
     if (nc == 0) {
@@ -259,6 +262,7 @@ int sched_end(void) {
 }
 void sched_set_budget(uint64_t s) { budget = s; }
 void sched_set_spurious(int pm) { spurious = pm; }
+void sched_set_timeouts(int pm) { timeouts = pm; }
 void sched_replay(const uint8_t * seq, size_t n) { replay_seq = seq; replay_n = n; replay_i = 0; }
 const uint8_t * sched_log(size_t * n) { *n = nlog; return slog; }
 uint64_t sched_steps(void) { return steps; }
@@ -287,6 +291,10 @@ int pthread_mutex_unlock(pthread_mutex_t * m) {
     r_lock(&G); owner_of(m) = -1; self->st = RUNNABLE; schedule(); return 0;
 }
 static int do_wait(pthread_cond_t * c, pthread_mutex_t * m, bool timed) {
+    // pre-wait window: the predicate has been evaluated, the mutex is still held, the thread is not yet in the wait set.
+    // Threads that need this mutex stay blocked; a notifier that does not take it can run here - and its wake-up is lost,
+    // exactly as on real hardware.
+    r_lock(&G); self->st = RUNNABLE; schedule();
     r_lock(&G); owner_of(m) = -1; self->st = WAIT_COND; self->obj = c; self->obj2 = m; self->timed = timed; self->timedout = false;
     {   // count the blocked-at-site event
         void * bt[32]; int n = backtrace(bt, 32); count_site(site_of(bt, n));
